@@ -3,6 +3,7 @@ package main
 import (
 	"fmt"
 	"strings"
+	"time"
 
 	"github.com/google/badwolf/bql/lexer"
 )
@@ -10,11 +11,27 @@ import (
 // lexAll runs the real lexer over text and returns all tokens (including the final EOF/ERROR).
 func lexAll(text string, capacity int) []lexer.Token {
 	var out []lexer.Token
-	for t := range lexer.New(text, capacity) {
-		out = append(out, t)
+	ch := lexer.New(text, capacity)
+	// a lexer that stops delivering (a seeded change made it spin at the end of a text) must not stop the harness:
+	// what it delivered so far comes back followed by an error token saying so
+	watchdog := time.NewTimer(15 * time.Second)
+	defer watchdog.Stop()
+	for {
+		select {
+		case t, ok := <-ch:
+			if !ok {
+				return out
+			}
+			out = append(out, t)
+		case <-watchdog.C:
+			lexHangs++
+			return append(out, lexer.Token{Type: lexer.ItemError, Text: "", ErrorMessage: "harness: the lexer did not deliver its next token within 15s"})
+		}
 	}
-	return out
 }
+
+// lexHangs counts the texts on which lexAll gave up.
+var lexHangs int
 
 var keywordCandidates = []string{"select", "insert", "delete", "create", "construct", "deconstruct", "drop",
 	"graph", "data", "into", "from", "where", "optional", "filter", "as", "before", "after", "between",
